@@ -146,3 +146,72 @@ Definition c08_eig0 (A : c08_mat3) (l : R) : nat * c08_vec3 :=
 Definition c08_eig0_d (A : c08_mat3) (l : R) : R * R * R :=
   let '(row0, row1, row2) := c08_shift3 A l in
   (c08_norm3 (c08_cross row0 row1), c08_norm3 (c08_cross row0 row2), c08_norm3 (c08_cross row1 row2)).
+
+(* ------------------------------------------------------------------------------------------- (5) 3x3 pre-scaling
+   The 3d specialisation of eigenValuesVectorsImpl over R: maxAbsElement = isnormal(||A||_inf) ? ||A||_inf : 1 (over R:
+   "normal" = non-zero), scaledMatrix = A / maxAbsElement, the whole computation [core] (eigenvalues, and eigenvectors if
+   requested) on the scaled matrix, eigenValues *= maxAbsElement.  Symmetric matrix as its 6 entries. *)
+Definition c08_infnorm3 (a00 a01 a02 a11 a12 a22 : R) : R :=
+  Rmax (Rabs a02 + Rabs a12 + Rabs a22) (Rmax (Rabs a01 + Rabs a11 + Rabs a12) (Rmax (Rabs a00 + Rabs a01 + Rabs a02) 0)).
+Definition c08_prescaled {X : Type} (core : R -> R -> R -> R -> R -> R -> (R * R * R) * X)
+  (a00 a01 a02 a11 a12 a22 : R) : (R * R * R) * X :=
+  let n := c08_infnorm3 a00 a01 a02 a11 a12 a22 in
+  let m := if Req_EM_T n 0 then 1 else n in
+  let '((e0, e1, e2), x) := core (a00 / m) (a01 / m) (a02 / m) (a11 / m) (a12 / m) (a22 / m) in
+  ((e0 * m, e1 * m, e2 * m), x).
+
+(* ------------------------------------------------------------------------------------------- (6) 3x3 eigenvectors: orthoComp, eig1
+   Divisions are guarded: a zero divisor yields None (the theorems show it does not happen). *)
+Definition c08_symm (a00 a01 a02 a11 a12 a22 : R) : c08_mat3 := ((a00, a01, a02), (a01, a11, a12), (a02, a12, a22)).
+Definition c08_smul3 (k : R) (v : c08_vec3) : c08_vec3 := let '(v0, v1, v2) := v in (k * v0, k * v1, k * v2).
+Definition c08_sub3 (u v : c08_vec3) : c08_vec3 :=
+  let '(u0, u1, u2) := u in let '(v0, v1, v2) := v in (u0 - v0, u1 - v1, u2 - v2).
+Definition c08_divo (x y : R) : option R := if Req_EM_T y 0 then None else Some (x / y).
+Definition c08_obind {A B : Type} (x : option A) (f : A -> option B) : option B := match x with Some a => f a | None => None end.
+
+(* orthoComp: a right-handed orthonormal set {u, v, evec0} *)
+Definition c08_orthocomp (e : c08_vec3) : option (c08_vec3 * c08_vec3) :=
+  let '(e0, e1, e2) := e in
+  c08_obind (if Rlt_dec (Rabs e1) (Rabs e0)                                          (* abs(evec0[0]) > abs(evec0[1]) *)
+             then c08_obind (c08_divo 1 (sqrt (0 + e0 * e0 + e2 * e2))) (fun L => Some (c08_smul3 L (- e2, 0, e0)))
+             else c08_obind (c08_divo 1 (sqrt (0 + e1 * e1 + e2 * e2))) (fun L => Some (c08_smul3 L (0, e2, - e1))))
+    (fun u => Some (u, c08_cross e u)).
+
+(* eig1: the second eigenvector, in the plane orthogonal to evec0 *)
+Definition c08_eig1v (A : c08_mat3) (e : c08_vec3) (l1 : R) : option c08_vec3 :=
+  c08_obind (c08_orthocomp e) (fun uv =>
+  let '(u, v) := uv in
+  let Au := c08_mv3 A u in let Av := c08_mv3 A v in
+  let m00 := c08_dot3 u Au - l1 in let m01 := c08_dot3 u Av in let m11 := c08_dot3 v Av - l1 in
+  let absM00 := Rabs m00 in let absM01 := Rabs m01 in let absM11 := Rabs m11 in
+  let unitc (t : R) := c08_divo 1 (sqrt (1 + t * t)) in
+  if Rle_dec absM11 absM00 then                                                        (* absM00 >= absM11 *)
+    if Rlt_dec 0 (Rmax absM00 absM01) then
+      if Rle_dec absM01 absM00 then
+        c08_obind (c08_divo m01 m00) (fun t => c08_obind (unitc t) (fun c =>           (* m01 /= m00; m00 = 1/sqrt(1+m01^2); m01 *= m00 *)
+          Some (c08_sub3 (c08_smul3 (t * c) u) (c08_smul3 c v))))
+      else
+        c08_obind (c08_divo m00 m01) (fun t => c08_obind (unitc t) (fun c =>           (* m00 /= m01; m01 = 1/sqrt(1+m00^2); m00 *= m01 *)
+          Some (c08_sub3 (c08_smul3 c u) (c08_smul3 (t * c) v))))
+    else Some u
+  else
+    if Rlt_dec 0 (Rmax absM11 absM01) then
+      if Rle_dec absM01 absM11 then
+        c08_obind (c08_divo m01 m11) (fun t => c08_obind (unitc t) (fun c =>           (* m01 /= m11; m11 = 1/sqrt(1+m01^2); m01 *= m11 *)
+          Some (c08_sub3 (c08_smul3 c u) (c08_smul3 (t * c) v))))
+      else
+        c08_obind (c08_divo m11 m01) (fun t => c08_obind (unitc t) (fun c =>           (* m11 /= m01; m01 = 1/sqrt(1+m11^2); m11 *= m01 *)
+          Some (c08_sub3 (c08_smul3 (t * c) u) (c08_smul3 c v))))
+    else Some u).
+
+(* the eigenvector part of the 3d specialisation (non-diagonal branch): r >= 0: eig0 for the largest eigenvalue, eig1 for the
+   middle one, the third by cross product; r < 0: the same starting from the smallest.  (The final sort of the
+   (eigenvalue, eigenvector) pairs is the identity when the eigenvalues are already ascending.) *)
+Definition c08_eigvecs3 (A : c08_mat3) (r : R) (ev : R * R * R) : option (c08_vec3 * c08_vec3 * c08_vec3) :=
+  let '(l0, l1, l2) := ev in
+  if Rle_dec 0 r then
+    let w2 := snd (c08_eig0 A l2) in
+    c08_obind (c08_eig1v A w2 l1) (fun w1 => Some (c08_cross w1 w2, w1, w2))
+  else
+    let w0 := snd (c08_eig0 A l0) in
+    c08_obind (c08_eig1v A w0 l1) (fun w1 => Some (w0, w1, c08_cross w0 w1)).
